@@ -252,18 +252,18 @@ def stepMon (st : MonSt) (ws : List String) (line : String) : MonSt × Option St
 
 structure RtSt where
   trace : Array Item := #[]
+  /-- position in `trace` of the i-th statement item -/
+  stmtPos : Array Nat := #[]
   s : S := Sys.init ()
-  started : Bool := false
 
 def rtProg (tr : Array Item) : Prog Unit Unit :=
   { item := fun i => tr.getD i .boundary, exec := fun _ m => m, applyW := fun _ m => m }
 
-def depthAt (tr : Array Item) (i : Nat) : Nat :=
-  match tr.getD i .boundary with
-  | .stmt _ d _ => d
-  | _ => 0
+/-- Number of statement items before trace position `pc`. -/
+def stmtIndex (st : RtSt) (pc : Nat) : Nat :=
+  (st.stmtPos.toList.filter (· < pc)).length
 
-/-- Run the cycle thread until it parks or reaches trace index `limit`. -/
+/-- Run the cycle thread until it parks or reaches trace position `limit`. -/
 def runUntil (tr : Array Item) (s : S) (limit : Nat) : S :=
   let p := rtProg tr
   let rec go (s : S) (fuel : Nat) : S :=
@@ -275,17 +275,24 @@ def runUntil (tr : Array Item) (s : S) (limit : Nat) : S :=
       | .idle => if s.pc ≥ limit then s else go (step p s .run) fuel
   go s (limit + 1 - s.pc)
 
-def rtAnswer (tr : Array Item) (s : S) : String :=
+def modeLetter (s : S) : String := match s.d.mode with | .running => "R" | .paused => "P"
+
+def rtAnswer (st : RtSt) (s : S) (goto : Bool) : String :=
   match s.rt with
   | .waiting _ =>
     match s.d.lastStop with
-    | some st => s!"m stop {showStop st} d={depthAt tr s.pc} @{s.pc} n={s.d.stops.length}"
-    | none => s!"m parked-without-stop @{s.pc}"
-  | .idle => s!"m end @{s.pc} n={s.d.stops.length} mode={match s.d.mode with | .running => "R" | .paused => "P"}"
+    | some stp => s!"m stop {showStop stp} d={(st.trace.getD s.pc .boundary).depth} @{stmtIndex st s.pc} n={s.d.stops.length} lg={s.d.logs}"
+    | none => s!"m parked-without-stop @{stmtIndex st s.pc}"
+  | .idle =>
+    if goto then s!"m at @{stmtIndex st s.pc}"
+    else s!"m end @{stmtIndex st s.pc} n={s.d.stops.length} mode={modeLetter s} lg={s.d.logs}"
 
 def stepRt (st : RtSt) (ws : List String) : RtSt × Option String :=
   let p := rtProg st.trace
   match ws with
+  | ["script", _] => ({}, none)
+  | ["trace-check"] => (st, some "m ok")
+  | ["final"] => (st, some "m same")
   | ["t", t] =>
     match optNat? t with
     | some t => ({ st with trace := st.trace.push (.thread t) }, none)
@@ -293,11 +300,12 @@ def stepRt (st : RtSt) (ws : List String) : RtSt × Option String :=
   | ["b"] => ({ st with trace := st.trace.push .boundary }, none)
   | "s" :: args =>
     match parseHook? args with
-    | some (loc, depth) => ({ st with trace := st.trace.push (.stmt loc depth true) }, none)
+    | some (loc, depth) =>
+      ({ st with stmtPos := st.stmtPos.push st.trace.size, trace := st.trace.push (.stmt loc depth true) }, none)
     | none => (st, some "bad-op")
   | ["act", k, t] =>
     match parseAction? k t with
-    | some c => ({ st with s := (applyCmd st.s c).1 }, none)
+    | some c => let (s1, o) := applyCmd st.s c; ({ st with s := s1 }, some s!"m out={o}")
     | none => (st, some "bad-op")
   | ["entry"] => ({ st with s := (applyCmd st.s .entry).1 }, none)
   | "bp" :: f :: bps =>
@@ -308,13 +316,14 @@ def stepRt (st : RtSt) (ws : List String) : RtSt × Option String :=
   | ["go"] =>
     let s1 := step p st.s .wake
     let s2 := runUntil st.trace s1 st.trace.size
-    ({ st with s := s2 }, some (rtAnswer st.trace s2))
+    ({ st with s := s2 }, some (rtAnswer st s2 false))
   | ["goto", i] =>
     match i.toNat? with
     | some i =>
+      let limit := if h : i < st.stmtPos.size then st.stmtPos[i] else st.trace.size
       let s1 := step p st.s .wake
-      let s2 := runUntil st.trace s1 i
-      ({ st with s := s2 }, some (rtAnswer st.trace s2))
+      let s2 := runUntil st.trace s1 limit
+      ({ st with s := s2 }, some (rtAnswer st s2 true))
     | none => (st, some "bad-op")
   | _ => (st, some "bad-op")
 
